@@ -7,17 +7,33 @@
    the (kind, name) list of that derivation, and never runs out of fuel — for ALL token lists, for the whole
    document grammar (executable definitions, type-system definitions and extensions).
 
-   What is NOT proved: the statement about apollo-parser itself,
-
-     C05_accept_iff : forall s, ~ Known_C05 s ->
-       (errors (parse_document s) = [] <-> exists ds, rg_parse_source s = Some ds) /\
-       (forall ds, rg_parse_source s = Some ds -> definitions (tree (parse_document s)) = ds)
-
-   needs the Gallina model of parser/grammar/*.rs (Parse/Grammar.v of DESIGN 4.0.2), which is not on main.  The
-   agreement parser-vs-reference is carried by the correspondence run (driver/props/c05.py); the theorem about the
-   source-level reference is therefore named `_partial`. *)
+   What is proved about apollo-parser itself (parser model Parse/Grammar.v + Parse/Entry.v on the items of the lexer
+   model Lex.Fun.lex_all; link Parse/RefLink*.v), for EVERY source string, every recursion limit, with or without
+   debug assertions, and for the WHOLE document grammar (all productions of the executable language, of the type
+   system and of its extensions):
+     C05_parser_is_relaxed_grammar / C05_relaxed_grammar_is_accepted : the parser reports no error exactly when the
+        input has no lexical error and its significant tokens are a Document of the RELAXED grammar
+        (Parse/RefLenient.v: the reference recogniser with six switchable relaxations);
+     C05_relaxed_strict_is_reference, C05_reference_in_relaxed : with every relaxation off the relaxed grammar IS the
+        reference; with any relaxations on it contains the reference (same definition list);
+     C05_accept_iff_partial : outside the decidable class rgl_known_document (the relaxed grammar accepts, the reference
+        does not) the parser reports no error <-> the reference grammar accepts;
+     C05_reference_is_accepted : the parser never reports an error on a document of the grammar (no exception);
+     C05_lexical_error_reported : a lexical error is always reported;
+     C05_accept_iff_refuted : the five known findings are inside the class, with their witnesses on the model.
+   `_partial` because (a) the converse directions assume a recursion limit above the number of `{`, `[`, `:` tokens
+   (a crude bound on the nesting depth; with a smaller limit the parser may report a recursion-limit error on a
+   grammatical document) and no token limit; (b) of C05_definitions_agree (the (kind, name) list of
+   cst::Document::definitions() read off the parser's TREE equals the reference's) only the KINDS are proved
+   (C05_definition_kinds_agree_partial: the definition nodes directly under the DOCUMENT root of the tree the model
+   builds are, in order, of the reference's definition kinds; through a proof about rowan's GreenNodeBuilder as the
+   parser drives it, Parse/RefLinkTree.v, RefLinkKinds.v); the NAMES read off the tree are not linked (that needs the
+   inner shape of every definition node) and stay with the correspondence run; at the level of the two grammars the
+   whole list agrees (C05_definitions_agree_grammar_partial). *)
 From ApolloVerif Require Import Base.Chars Lex.Item Lex.Fun Parse.RefGrammar Parse.RefLib Parse.RefSpec
-  Parse.RefSpecTS Parse.RefProofsValue Parse.RefProofsExec Parse.RefProofsTS.
+  Parse.RefSpecTS Parse.RefProofsValue Parse.RefProofsExec Parse.RefProofsTS
+  Parse.Outcome Parse.Entry Parse.RefLenient Parse.RefLenientProofs Parse.RefLinkBase Parse.RefLinkKinds
+  Parse.RefLinkTop.
 
 (* ---- fuel = token count suffices ---- *)
 Theorem C05_rg_fuel_enough : forall ts, rg_document_r rg_definition ts <> RgOut.
@@ -135,14 +151,14 @@ Proof. exact rg_fieldsdef_complete. Qed.
 Check C05_ref_complete_fields_definition : forall F, rg_complete rg_fieldsdef RgFieldsDefinition F.
 Print Assumptions C05_ref_complete_fields_definition.
 
-(* ---- the source-level verdict the tie compares with the parser's ----
-   (partial with respect to the property: it characterises the reference side only, see the header) *)
-Theorem C05_accept_iff_partial : forall s ds,
+(* ---- the reference's verdict on a source string (this theorem was called C05_accept_iff_partial before the
+        parser model was linked; its statement is unchanged) ---- *)
+Theorem C05_ref_source_iff : forall s ds,
   rg_parse_source s = Some ds <-> exists ts, rg_significant (lex_all s) = Some ts /\ RgDocument ts ds.
 Proof. exact rg_parse_source_iff. Qed.
-Check C05_accept_iff_partial : forall s ds,
+Check C05_ref_source_iff : forall s ds,
   rg_parse_source s = Some ds <-> exists ts, rg_significant (lex_all s) = Some ts /\ RgDocument ts ds.
-Print Assumptions C05_accept_iff_partial.
+Print Assumptions C05_ref_source_iff.
 
 (* ---- non-vacuity: concrete documents on both sides of the boundary ---- *)
 (* query Q($v: [Int!] = [1]) @d { a: f(x: {y: $v}) ... on T { b } }  type T implements I @d { f(a: Int = 1): [T!]! }  extend schema @d *)
@@ -157,7 +173,7 @@ Proof. vm_compute. reflexivity. Qed.
 Example C05_nonvacuous_derivable : exists ts,
   rg_significant (lex_all c05_ex_doc) = Some ts /\
   RgDocument ts [(RgkOperation, Some [81]); (RgkObjectDef, Some [84]); (RgkSchemaExt, None)].
-Proof. apply C05_accept_iff_partial. vm_compute. reflexivity. Qed.
+Proof. apply C05_ref_source_iff. vm_compute. reflexivity. Qed.
 (* { f(a) } : an argument without a value is not in the grammar (known finding argument_without_value) *)
 Example C05_nonvacuous_reject : rg_parse_source [123;32;102;40;97;41;32;125] = None.
 Proof. vm_compute. reflexivity. Qed.
@@ -165,3 +181,134 @@ Proof. vm_compute. reflexivity. Qed.
 Example C05_nonvacuous_reject_const :
   rg_parse_source [113;117;101;114;121;32;40;36;97;58;32;73;110;116;32;61;32;36;98;41;32;123;32;97;32;125] = None.
 Proof. vm_compute. reflexivity. Qed.
+
+(* ================================================================== the parser against the reference
+   parse_document_items dbg rl items = Parser::parse on the lexer's items; pr_errors = its error list;
+   rg_significant = the tokens without Whitespace / Comment / Comma / Eof (None on a lexical error);
+   rgl_document rgl_parser = the relaxed grammar with every relaxation on; rl_weight = number of `{`, `[`, `:`. *)
+
+(* the parser's acceptance IS the relaxed grammar: no error -> no lexical error and a relaxed Document ... *)
+Theorem C05_parser_is_relaxed_grammar : forall dbg rl s r,
+  parse_document_items dbg rl (lex_all s) = POk r -> pr_errors r = [] ->
+  exists ts ds, rg_significant (lex_all s) = Some ts /\ rgl_document rgl_parser ts = Some ds.
+Proof. exact rl_document_exact_source. Qed.
+Check C05_parser_is_relaxed_grammar : forall dbg rl s r,
+  parse_document_items dbg rl (lex_all s) = POk r -> pr_errors r = [] ->
+  exists ts ds, rg_significant (lex_all s) = Some ts /\ rgl_document rgl_parser ts = Some ds.
+Print Assumptions C05_parser_is_relaxed_grammar.
+
+(* ... and conversely *)
+Theorem C05_relaxed_grammar_is_accepted : forall dbg rl s r ts ds,
+  parse_document_items dbg rl (lex_all s) = POk r -> rg_significant (lex_all s) = Some ts ->
+  rgl_document rgl_parser ts = Some ds -> rl_weight ts < rl -> pr_errors r = [].
+Proof. exact rl_document_accepts_source. Qed.
+Check C05_relaxed_grammar_is_accepted : forall dbg rl s r ts ds,
+  parse_document_items dbg rl (lex_all s) = POk r -> rg_significant (lex_all s) = Some ts ->
+  rgl_document rgl_parser ts = Some ds -> rl_weight ts < rl -> pr_errors r = [].
+Print Assumptions C05_relaxed_grammar_is_accepted.
+
+(* the relaxed grammar with every relaxation off is the reference; with any relaxations it contains it *)
+Theorem C05_relaxed_strict_is_reference : forall ts, rgl_document rgl_strict ts = rg_document ts.
+Proof. exact rgl_strict_document. Qed.
+Check C05_relaxed_strict_is_reference : forall ts, rgl_document rgl_strict ts = rg_document ts.
+Print Assumptions C05_relaxed_strict_is_reference.
+Theorem C05_reference_in_relaxed : forall L ts ds, rg_document ts = Some ds -> rgl_document L ts = Some ds.
+Proof. exact rgl_sub_document. Qed.
+Check C05_reference_in_relaxed : forall L ts ds, rg_document ts = Some ds -> rgl_document L ts = Some ds.
+Print Assumptions C05_reference_in_relaxed.
+
+(* the property, outside the decidable class of the known leniencies *)
+Theorem C05_accept_iff_partial : forall dbg rl s r ts,
+  parse_document_items dbg rl (lex_all s) = POk r ->
+  rg_significant (lex_all s) = Some ts -> rgl_known_document ts = false -> rl_weight ts < rl ->
+  (pr_errors r = [] <-> exists ds, rg_document ts = Some ds).
+Proof. exact rl_document_accept_iff. Qed.
+Check C05_accept_iff_partial : forall dbg rl s r ts,
+  parse_document_items dbg rl (lex_all s) = POk r ->
+  rg_significant (lex_all s) = Some ts -> rgl_known_document ts = false -> rl_weight ts < rl ->
+  (pr_errors r = [] <-> exists ds, rg_document ts = Some ds).
+Print Assumptions C05_accept_iff_partial.
+
+(* one direction needs no exception: the parser accepts every document of the grammar *)
+Theorem C05_reference_is_accepted : forall dbg rl s r ts ds,
+  parse_document_items dbg rl (lex_all s) = POk r ->
+  rg_significant (lex_all s) = Some ts -> rg_document ts = Some ds -> rl_weight ts < rl -> pr_errors r = [].
+Proof. exact rl_document_reference_accepted. Qed.
+Check C05_reference_is_accepted : forall dbg rl s r ts ds,
+  parse_document_items dbg rl (lex_all s) = POk r ->
+  rg_significant (lex_all s) = Some ts -> rg_document ts = Some ds -> rl_weight ts < rl -> pr_errors r = [].
+Print Assumptions C05_reference_is_accepted.
+
+Theorem C05_lexical_error_reported : forall dbg rl s r,
+  parse_document_items dbg rl (lex_all s) = POk r -> rg_significant (lex_all s) = None -> pr_errors r <> [].
+Proof. exact rl_document_lexical_error. Qed.
+Check C05_lexical_error_reported : forall dbg rl s r,
+  parse_document_items dbg rl (lex_all s) = POk r -> rg_significant (lex_all s) = None -> pr_errors r <> [].
+Print Assumptions C05_lexical_error_reported.
+
+(* the unrestricted statement is false of the code: the five known findings, each with its witness
+   (rl_known_witness src: the model parses src with 0 errors, the reference rejects its tokens, they are in the class) *)
+Theorem C05_accept_iff_refuted :
+  rl_known_witness rl_w_argument_without_value /\ rl_known_witness rl_w_object_field_without_value /\
+  rl_known_witness rl_w_root_operation_without_type /\ rl_known_witness rl_w_description_before_fragment /\
+  rl_known_witness rl_w_schema_extension_empty_block.
+Proof. exact rl_document_refuted. Qed.
+Check C05_accept_iff_refuted :
+  rl_known_witness rl_w_argument_without_value /\ rl_known_witness rl_w_object_field_without_value /\
+  rl_known_witness rl_w_root_operation_without_type /\ rl_known_witness rl_w_description_before_fragment /\
+  rl_known_witness rl_w_schema_extension_empty_block.
+Print Assumptions C05_accept_iff_refuted.
+
+(* the definition list, at the level of the grammars only: when the reference accepts, the relaxed grammar (the
+   parser's acceptance) returns the same (kind, name) list.  NOT proved: that this list is the one read off the
+   parser's tree by cst::Document::definitions() (full statement C05_definitions_agree in the header of DESIGN 4 C05). *)
+Theorem C05_definitions_agree_grammar_partial : forall ts ds ds',
+  rg_document ts = Some ds -> rgl_document rgl_parser ts = Some ds' -> ds' = ds.
+Proof. exact rl_document_definitions_agree. Qed.
+Check C05_definitions_agree_grammar_partial : forall ts ds ds',
+  rg_document ts = Some ds -> rgl_document rgl_parser ts = Some ds' -> ds' = ds.
+Print Assumptions C05_definitions_agree_grammar_partial.
+
+(* the definitions in the TREE, kinds only: p_tree_def_kinds t = the definition kinds of the nodes directly under the
+   DOCUMENT root of t, in order (what cst::Document::definitions() iterates over, through Definition::cast).
+   Full statement C05_definitions_agree_partial (kinds AND names) is not proved: the names are missing. *)
+Theorem C05_definition_kinds_agree_partial : forall dbg rl s r ts ds,
+  parse_document_items dbg rl (lex_all s) = POk r -> pr_errors r = [] ->
+  rg_significant (lex_all s) = Some ts -> rg_document ts = Some ds ->
+  p_tree_def_kinds (pr_tree r) = map fst ds.
+Proof. exact rl_document_kinds_agree. Qed.
+Check C05_definition_kinds_agree_partial : forall dbg rl s r ts ds,
+  parse_document_items dbg rl (lex_all s) = POk r -> pr_errors r = [] ->
+  rg_significant (lex_all s) = Some ts -> rg_document ts = Some ds ->
+  p_tree_def_kinds (pr_tree r) = map fst ds.
+Print Assumptions C05_definition_kinds_agree_partial.
+
+(* ... also inside the known class, against the relaxed grammar (e.g. `"d" fragment on T {a}` is a Fragment node) *)
+Theorem C05_definition_kinds_relaxed : forall dbg rl s r ts ds,
+  parse_document_items dbg rl (lex_all s) = POk r -> pr_errors r = [] ->
+  rg_significant (lex_all s) = Some ts -> rgl_document rgl_parser ts = Some ds ->
+  p_tree_def_kinds (pr_tree r) = map fst ds.
+Proof. exact rl_document_kinds_source. Qed.
+Check C05_definition_kinds_relaxed : forall dbg rl s r ts ds,
+  parse_document_items dbg rl (lex_all s) = POk r -> pr_errors r = [] ->
+  rg_significant (lex_all s) = Some ts -> rgl_document rgl_parser ts = Some ds ->
+  p_tree_def_kinds (pr_tree r) = map fst ds.
+Print Assumptions C05_definition_kinds_relaxed.
+
+(* non-vacuity: the tree the model builds for the example document has an operation, an object type definition and a
+   schema extension under its root, as the reference says *)
+Example C05_kinds_nonvacuous :
+  rl_tree_kinds_of (parse_document_items false 500 (lex_all c05_ex_doc)) = Some [RgkOperation; RgkObjectDef; RgkSchemaExt] /\
+  option_map (map fst) (rg_parse_source c05_ex_doc) = Some [RgkOperation; RgkObjectDef; RgkSchemaExt].
+Proof. split; vm_compute; reflexivity. Qed.
+
+(* non-vacuity of C05_accept_iff_partial: the example document above is parsed without error by the model, its tokens
+   are outside the known class, within the recursion budget, and the reference accepts them *)
+Example C05_link_nonvacuous :
+  rl_errs_of (parse_document_items false 500 (lex_all c05_ex_doc)) = Some 0 /\
+  exists ts, rg_significant (lex_all c05_ex_doc) = Some ts /\ rgl_known_document ts = false /\
+             N.ltb (rl_weight ts) 500 = true /\ rg_document ts <> None.
+Proof.
+  split; [vm_compute; reflexivity|]. eexists. split; [vm_compute; reflexivity|].
+  split; [vm_compute; reflexivity|]. split; [vm_compute; reflexivity|]. vm_compute. discriminate.
+Qed.
